@@ -44,6 +44,7 @@ def run(prog, tier, extra=None):
     res = Result("C19", "other")
     R1 = res.rule("C19.co-mutation", "a body that changes Wallet.unspent_slips changes available_balance in the matching direction and vice versa", floor=7)
     R3 = res.rule("C19.per-iteration", "loops that spend slips subtract the amount and queue the removal together in each iteration", floor=1)
+    R4 = res.rule("C19.sub-without-removal", "every path that subtracts from the balance removes a slip from the unspent list", floor=3)
     R2 = res.rule("C19.private", "available_balance is written only inside impl Wallet (the field is private)", floor=1)
     fa = FieldAnalysis(prog)
     for b in prog.all_bodies():
@@ -133,6 +134,38 @@ def run(prog, tier, extra=None):
                 res.add(Finding(R3, "C19.per-iteration|%s" % b.path, "%s %s: balance and unspent list drift apart for that slip" % (name, bad[1]), b.loc(bad[0])))
             else:
                 res.sample({"rule": R3, "body": name, "queue": b.name_of(k) or "_%d" % k, "verdict": "each iteration subtracts and queues together, or does neither"})
+
+    # R4: no path subtracts from the balance without (having or going to have) removed a slip from the unspent list on that
+    # same path. Removal markers: unspent_slips removals, pushes onto a deferred-removal queue, and the loops that contain them.
+    from .c14 import loop_relaxed
+    for b in prog.all_bodies():
+        if "::tests::" in b.path or "/test/" in b.file:
+            continue
+        subs = {bb for bb, d in balance_writes(b, fa) if d == "sub"}
+        if not subs:
+            continue
+        markers = {s[1] for s in fa.sites(b, WALLET, "unspent_slips") if s[3] == "remove"}
+        for bb, t in b.calls():
+            if (call_name(t) or "") == "std::vec::Vec::push" and len(t["args"]) == 2:
+                k = recv_local(b, t["args"][0])
+                if k is not None and "[u8; 59]" in b.ty(k)["s"]:
+                    markers.add(bb)
+        marks = loop_relaxed(b, markers)
+        for s_ in sorted(subs):
+            res.instance(R4)
+            name = b.path.split("::", 4)[-1]
+            if s_ in marks:
+                continue
+            before = b.find_path(0, [s_], blocked=marks)
+            after = None
+            for n in b.succ(s_):
+                after = after or b.find_path(n, b.return_blocks(), blocked=marks)
+            if before is not None and (after is not None or not b.succ(s_)):
+                res.add(Finding(R4, "C19.sub-without-removal|%s" % b.path,
+                                "%s can subtract from available_balance on a path that removes nothing from unspent_slips (e.g. a slip that is staked, bound or already "
+                                "committed to a pending transaction): the balance falls below the sum of the unspent list" % name, b.loc(s_)))
+            else:
+                res.sample({"rule": R4, "body": name, "site": b.loc(s_), "verdict": "every subtracting path removes from the unspent list"})
 
     adt = prog.adts.get("saito_core::core::consensus::wallet::Wallet")
     if adt is None:
